@@ -9,8 +9,11 @@ package upstream
 // ---- C05: every transport hands the bare host name of the upstream URL to the session handshake
 //@ func (ups *Socket) Connect
 //@   property C05
+// An Http upstream is only ever built by unmarshalUpstream for one of these four schemes.
+//@ pred webScheme(s string) := s == "http" || s == "https" || s == "ws" || s == "wss"
 //@ func (ups *Http) Connect
 //@   property C05
+//@   requires webScheme(ups.Address.Scheme)
 //@ func (ups *Packet) ConnectPacket
 //@   property C05
 //@ func (ups *Dns) Connect
